@@ -346,3 +346,20 @@ PROPS["C20"] = dict(
     min_labels=dict(quick=dict(read_valid=5000, read_long=2000, read_error_injected=2000, write_error_injected=2000, write_long=1000, file_variants=1500)),
     assumptions=["EINTR is treated like any other read/write error (json_util.c does not retry; the property only demands that a failing write/read is reported)"],
 )
+
+PROPS["C14"] = dict(
+    harness="C14_locale.cpp", level="exploration", needs_locale=True,
+    technique="differential/metamorphic property testing across locale regimes: a synthetic comma-decimal locale (built offline with localedef, selected through LOCPATH) installed globally and/or per thread; parse results and serialised bytes compared with the C-locale results of the same process; thread/global locale, printf behaviour and live locale objects checked around every parse call on every return path; exhaustive outcome-class x regime x split table",
+    level_text="texts and trees containing non-integers are parsed (one-shot, split right behind '.'/'e', random splits, byte-wise) and serialised (all flag "
+               "sets, custom double formats) under {comma global, comma per-thread over C global, C per-thread over comma global}; value dumps, end offsets, "
+               "status codes and output bytes must equal the C-locale run; around EVERY json_tokener_parse_ex call - success, continue and each error code "
+               "incl. depth, size, utf8 and injected out-of-memory - the thread locale handle, the global LC_NUMERIC name, printf's decimal separator and the "
+               "number of live locale objects must be unchanged; the 20 outcome classes x 4 regimes x 3 chunkings are enumerated completely",
+    level_note="the comma locale is synthetic (ASCII charmap, decimal_point ',', thousands_sep '.'); only LC_NUMERIC matters to the code under test; newlocale/duplocale/freelocale are counted through link-time interposition",
+    rule="(text or tree, regimes, chunking); every case contains a non-integer; non-trivial = all generated cases (each compares 3 non-C regimes); distinct by hash of (text, chunking, flags) or (tree, flags)",
+    quick=[dict(mode="gen", cases=24000, workers=8, maxbytes=2000), dict(mode="classes", enum=True, size=240, workers=1)],
+    thorough=[dict(mode="gen", cases=2400000, workers=16, maxbytes=4000), dict(mode="classes", enum=True, size=240, workers=1),
+              dict(mode="gen", fuzz=True, secs=240, jobs=8, max_len=512)],
+    min_labels=dict(quick=dict(parse=8000, serialize=6000, split_inside_number=2000, parse_verbose=1000)),
+    assumptions=["glibc's uselocale/newlocale semantics (HAVE_USELOCALE configuration, the one this tree configures to here)"],
+)
